@@ -15,6 +15,7 @@ import (
 	"github.com/database64128/shadowsocks-go/conn"
 	"github.com/database64128/shadowsocks-go/router"
 	"github.com/database64128/shadowsocks-go/stats"
+	"github.com/database64128/shadowsocks-go/verifhook"
 	"github.com/database64128/shadowsocks-go/zerocopy"
 	"go.uber.org/zap"
 )
@@ -355,6 +356,7 @@ func (s *UDPNATRelay) recvFromServerConnGeneric(ctx context.Context, lnc *udpRel
 					return
 				}
 
+				verifhook.At("udp.init.beforeSwap")
 				oldState := entry.state.Swap(natConn)
 				if oldState != nil {
 					natConn.Close()
@@ -465,6 +467,7 @@ func (s *UDPNATRelay) relayServerConnToNatConnGeneric(ctx context.Context, uplin
 			)
 		}
 
+		verifhook.At("udp.uplink.beforeRearm")
 		err = uplink.natConn.SetReadDeadline(time.Now().Add(uplink.natTimeout))
 		if err != nil {
 			uplink.logger.Error("Failed to set read deadline on natConn",
